@@ -28,4 +28,15 @@ theorem fast_compound_eq {ε : Type} (fuel : Nat) (c : Compound) :
     (Fast.compoundCollect fuel c : R ε (List (R ParseError Packet × Nat) × Bool × Compound))
       = Compound.collect fuel c [] := Proofs.fast_compound_eq' fuel c
 
+theorem fast_compoundParse_eq (d : Bytes) : Fast.compoundParse d = Compound.parse d :=
+  Proofs.fast_compoundParse_eq d
+
+/-- the SDES scanner, chunk loop and item loop both linear -/
+theorem fast_sdesParse_eq (d : Bytes) : Fast.sdesParse d = Sdes.parse d := Proofs.fast_sdesParse_eq d
+
+/-- the generic parser with the linear SDES scanner behind its SDES arm -/
+theorem fast_packetParse_eq (d : Bytes) : Fast.packetParse d = Packet.parse d := Proofs.fast_packetParse_eq d
+
+theorem fast_kindParse_eq (k : Kind) (d : Bytes) : Fast.kindParse k d = k.parse d := Proofs.fast_kindParse_eq k d
+
 end Rtcp.Props
